@@ -6,9 +6,11 @@ package main
 // area_handshake_invite.go (encodings: lean/VDriver/HandshakeInvite.lean).
 
 import (
+	"bytes"
 	"context"
 	"crypto/ed25519"
 	"crypto/sha256"
+	"encoding/base64"
 	"encoding/json"
 	"errors"
 	"sort"
@@ -33,26 +35,72 @@ var hsLocalKey = hsKey("local")
 
 // ---------------------------------------------------------------- mocks
 
-type hsVerifier struct{ mode string }
+// hsVerifier is the caller's JSONVerifier.  `mode` scripts the answer (good / bad / err).  With `check` set the answer
+// "good" is given only to the question the property is about — does `wantName` have a valid signature on `wantMsg` (the
+// redacted event) at the event's timestamp — and every other question (another server name, another message, another time,
+// more or fewer requests than one) is answered "bad": that server did not sign that.
+type hsVerifier struct {
+	mode     string
+	check    bool
+	wantName spec.ServerName
+	wantMsg  []byte
+	wantTS   spec.Timestamp
+}
 
 func (v *hsVerifier) VerifyJSONs(ctx context.Context, reqs []gmsl.VerifyJSONRequest) ([]gmsl.VerifyJSONResult, error) {
 	if v.mode == "err" {
 		return nil, errors.New("verifier unavailable (scripted)")
 	}
 	res := make([]gmsl.VerifyJSONResult, len(reqs))
-	if v.mode == "bad" {
-		for i := range res {
+	for i, rq := range reqs {
+		switch {
+		case v.mode == "bad":
 			res[i].Error = errors.New("bad signature (scripted)")
+		case v.check && (len(reqs) != 1 || rq.ServerName != v.wantName || !bytes.Equal(rq.Message, v.wantMsg) || rq.AtTS != v.wantTS || rq.ValidityCheckingFunc == nil):
+			res[i].Error = errors.New("not the (server, message, time) the scripted signature is for")
 		}
 	}
 	return res, nil
 }
 
-type hsMembership struct{ cur string }
+// hsMembershipFor: the checking membership querier for a join event — the target is the event's sender (= its state key).
+func hsMembershipFor(cur string, roomID spec.RoomID, ev gmsl.PDU) *hsMembership {
+	if ev == nil {
+		return &hsMembership{cur: cur}
+	}
+	return &hsMembership{cur: cur, check: true, wantRoom: roomID.String(), wantSender: ev.SenderID()}
+}
+
+// hsVerifierFor: the checking verifier for one event — the signature scripted as good is `name`'s over the redacted event.
+func hsVerifierFor(mode string, verImpl gmsl.IRoomVersion, ev gmsl.PDU, name spec.ServerName) *hsVerifier {
+	v := &hsVerifier{mode: mode}
+	if verImpl == nil || ev == nil {
+		return v
+	}
+	red, err := verImpl.RedactEventJSON(ev.JSON())
+	if err != nil {
+		return v
+	}
+	v.check, v.wantName, v.wantMsg, v.wantTS = true, name, red, ev.OriginServerTS()
+	return v
+}
+
+// hsMembership is the caller's MembershipQuerier.  `cur` scripts the answer ("err" | "m:<membership>").  With `check` set
+// the scripted membership is that of (`wantRoom`, `wantSender`) — the user the property's "target" clause is about; a
+// question about any other room or user fails (the handler then answers with an internal error, which the model does not).
+type hsMembership struct {
+	cur        string
+	check      bool
+	wantRoom   string
+	wantSender spec.SenderID
+}
 
 func (m *hsMembership) CurrentMembership(ctx context.Context, roomID spec.RoomID, senderID spec.SenderID) (string, error) {
 	if m.cur == "err" {
 		return "", errors.New("membership query failed (scripted)")
+	}
+	if m.check && (roomID.String() != m.wantRoom || senderID != m.wantSender) {
+		return "", errors.New("membership asked for another (room, user) than the target of the event")
 	}
 	return m.cur[2:], nil
 }
@@ -80,37 +128,33 @@ func hsErrClass(err error) string {
 	return "err:other"
 }
 
-// sigReport checks the returned event: a valid signature of `signer` (local key) over its redacted form, and that
-// removing that one signature slot (and the unsigned section) gives back the received event.
+// sigReport checks the returned event: a VALID signature of `signer` under the local key ID, verified with the real local
+// public key over the redacted form of the returned event (an entry that merely exists under that name does not count),
+// and that the returned event is the received one apart from that one signature slot (and the unsigned section): the
+// slot (signer, local key ID) is removed from both before they are compared, so a received event that already carries an
+// entry there — necessarily not ours — is treated like any other.
 func sigReport(ver gmsl.IRoomVersion, in []byte, out gmsl.PDU, signer string) string {
 	red, err := ver.RedactEventJSON(out.JSON())
 	sig := "0"
 	if err == nil && gmsl.VerifyJSON(signer, hsKeyID, hsLocalKey.Public().(ed25519.PublicKey), red) == nil {
 		sig = "1"
 	}
-	strip := func(b []byte, dropSig bool) string {
+	strip := func(b []byte) string {
 		var m map[string]json.RawMessage
 		if json.Unmarshal(b, &m) != nil {
 			return "?"
 		}
 		delete(m, "unsigned")
-		if dropSig {
-			var sigs map[string]map[string]json.RawMessage
-			if json.Unmarshal(m["signatures"], &sigs) == nil {
-				delete(sigs[signer], string(hsKeyID))
-				if len(sigs[signer]) == 0 {
-					delete(sigs, signer)
-				}
-				if len(sigs) == 0 {
-					delete(m, "signatures")
-				} else {
-					m["signatures"], _ = json.Marshal(sigs)
-				}
+		var sigs map[string]map[string]json.RawMessage
+		if json.Unmarshal(m["signatures"], &sigs) == nil {
+			delete(sigs[signer], string(hsKeyID))
+			if len(sigs[signer]) == 0 {
+				delete(sigs, signer)
 			}
-		} else {
-			var sigs map[string]map[string]json.RawMessage
-			if json.Unmarshal(m["signatures"], &sigs) == nil && len(sigs) == 0 {
+			if len(sigs) == 0 {
 				delete(m, "signatures")
+			} else {
+				m["signatures"], _ = json.Marshal(sigs)
 			}
 		}
 		o, _ := json.Marshal(m)
@@ -118,7 +162,7 @@ func sigReport(ver gmsl.IRoomVersion, in []byte, out gmsl.PDU, signer string) st
 		return string(c)
 	}
 	unmod := "0"
-	if strip(in, false) == strip(out.JSON(), true) {
+	if strip(in) == strip(out.JSON()) {
 		unmod = "1"
 	}
 	return ":sig=" + sig + ":unmod=" + unmod + ":signer=" + signer
@@ -230,6 +274,7 @@ func execHandshake(op string, args []string) string {
 	ctx := context.Background()
 	switch op {
 	case "sendjoin":
+		// ver cls ev evType roomID reqEventID origin local senderQ verify cur
 		ver, cls := args[0], args[1]
 		var raw []byte
 		if cls == "x" {
@@ -239,6 +284,7 @@ func execHandshake(op string, args []string) string {
 			raw = unhx(args[2][i+1:])
 		}
 		verImpl, verr := gmsl.GetRoomVersion(gmsl.RoomVersion(ver))
+		var parsed gmsl.PDU
 		if verr == nil && cls != "x" {
 			// the op's class and event must be what the library makes of the raw message
 			ev, err := verImpl.NewEventFromUntrustedJSON(raw)
@@ -255,17 +301,23 @@ func execHandshake(op string, args []string) string {
 			if want == nil || ev.EventID() != want.EventID() || string(ev.JSON()) != string(want.JSON()) {
 				return "err:construct:reparse"
 			}
+			// the declared event type is the one the accessor reports
+			if ev.Type() != string(unhx(args[3])) {
+				return "err:construct:type"
+			}
+			parsed = ev
 		}
-		roomID, err := spec.NewRoomID(string(unhx(args[3])))
+		roomID, err := spec.NewRoomID(string(unhx(args[4])))
 		if err != nil {
 			return "err:construct:room"
 		}
-		local := args[6]
+		origin, local := spec.ServerName(args[6]), args[7]
+		// the signature scripted by `verify` is the REQUESTING server's, over the redacted event
 		resp, err := gmsl.HandleSendJoin(gmsl.HandleSendJoinInput{
-			Context: ctx, RoomID: *roomID, EventID: string(unhx(args[4])), JoinEvent: raw,
-			RoomVersion: gmsl.RoomVersion(ver), RequestOrigin: spec.ServerName(args[5]), LocalServerName: spec.ServerName(local),
-			KeyID: hsKeyID, PrivateKey: hsLocalKey, Verifier: &hsVerifier{mode: args[8]},
-			MembershipQuerier: &hsMembership{cur: args[9]}, UserIDQuerier: hsUserQuerier(args[7]),
+			Context: ctx, RoomID: *roomID, EventID: string(unhx(args[5])), JoinEvent: raw,
+			RoomVersion: gmsl.RoomVersion(ver), RequestOrigin: origin, LocalServerName: spec.ServerName(local),
+			KeyID: hsKeyID, PrivateKey: hsLocalKey, Verifier: hsVerifierFor(args[9], verImpl, parsed, origin),
+			MembershipQuerier: hsMembershipFor(args[10], *roomID, parsed), UserIDQuerier: hsUserQuerier(args[8]),
 			StoreSenderIDFromPublicID: func(ctx context.Context, senderID spec.SenderID, userID string, id spec.RoomID) error { return nil },
 		})
 		if err != nil {
@@ -380,11 +432,17 @@ func execHandshake(op string, args []string) string {
 			stripped = append(stripped, gmsl.NewInviteStrippedState(ev))
 		}
 		in := append([]byte{}, ev.JSON()...)
+		// the signature scripted by `verify` is that of the SENDER's server (HandleInvite is given no request origin)
+		var domOfSender spec.ServerName
+		if u, uerr := StdQuerier(*roomID, ev.SenderID()); uerr == nil && u != nil {
+			domOfSender = u.Domain()
+		}
 		out, err := gmsl.HandleInvite(ctx, gmsl.HandleInviteInput{
 			RoomID: *roomID, RoomVersion: gmsl.RoomVersion(ver), InvitedUser: *invited, InvitedSenderID: spec.SenderID(args[3]),
-			InviteEvent: ev, StrippedState: stripped, KeyID: hsKeyID, PrivateKey: hsLocalKey, Verifier: &hsVerifier{mode: args[5]},
-			RoomQuerier: &hsRoomQuerier{known: args[6]}, MembershipQuerier: &hsMembership{cur: args[9]},
-			StateQuerier: &hsStateQuerier{mode: args[8], ev: ev}, UserIDQuerier: hsUserQuerier(args[4]),
+			InviteEvent: ev, StrippedState: stripped, KeyID: hsKeyID, PrivateKey: hsLocalKey, Verifier: hsVerifierFor(args[5], verImpl, ev, domOfSender),
+			RoomQuerier:       &hsRoomQuerier{known: args[6]},
+			MembershipQuerier: &hsMembership{cur: args[9], check: true, wantRoom: roomID.String(), wantSender: spec.SenderID(args[3])},
+			StateQuerier:      &hsStateQuerier{mode: args[8], ev: ev}, UserIDQuerier: hsUserQuerier(args[4]),
 		})
 		if err != nil {
 			return hsErrClass(err)
@@ -448,6 +506,7 @@ func genHandshake(o *Out, tier string, r *Rng) {
 	if tier == "thorough" {
 		n = 12000
 	}
+	genSendJoinFixed(o, r)
 	for i := 0; i < n; i++ {
 		genSendJoin(o, r, i)
 	}
@@ -457,6 +516,7 @@ func genHandshake(o *Out, tier string, r *Rng) {
 	for i := 0; i < n/3; i++ {
 		genMakeLeave(o, r, i)
 	}
+	genInviteFixed(o, r)
 	for i := 0; i < n; i++ {
 		genInvite(o, r, i)
 	}
@@ -466,6 +526,7 @@ func genHandshake(o *Out, tier string, r *Rng) {
 	for i := 0; i < n/3; i++ {
 		genInviteV3(o, r, i)
 	}
+	genSendJoinPseudoFixed(o, r)
 	for i := 0; i < n; i++ {
 		genSendJoinPseudo(o, r, i)
 	}
@@ -483,8 +544,93 @@ func pickDev[T any](r *Rng, p int, xs ...T) T {
 	return xs[r.Intn(len(xs))]
 }
 
-func genSendJoin(o *Out, r *Rng, i int) {
+// hsWrongTypes: event types that are NOT m.room.member — a custom type, two other state event types, a case variant,
+// the empty type.  With state_key == sender and content.membership == "join" each of them looks like a join to
+// `Membership()`; HandleSendJoin must refuse them ("it is a join").
+var hsWrongTypes = []string{"x.custom", "m.room.name", "m.room.create", "m.room.Member", ""}
+
+// hsForgeClasses: what a received event may already carry in the signature slot (local server, local key ID) — the slot
+// the handler's own signature goes to.  Whatever was there is not the local server's signature and must not come back as it.
+//
+//	junk     64 zero bytes            otherkey  a genuine ed25519 signature over the redacted event, made with ANOTHER key
+//	short    3 bytes                  otherid   an entry under the local name but another key ID (must be left alone)
+var hsForgeClasses = []string{"junk", "otherkey", "short", "otherid"}
+
+var hsEvilKey = hsKey("evil")
+
+// hsForge returns the event with an entry planted under the signing name the handler will use (nil if the library
+// no longer reads it back as the same event).
+func hsForge(ver string, e *Ev, cls, name string) *Ev {
+	impl, err := gmsl.GetRoomVersion(gmsl.RoomVersion(ver))
+	if err != nil || e == nil {
+		return nil
+	}
+	keyID, sig := string(hsKeyID), ""
+	switch cls {
+	case "junk":
+		sig = base64.RawStdEncoding.EncodeToString(make([]byte, 64))
+	case "short":
+		sig = "AAAA"
+	case "otherid":
+		keyID, sig = "ed25519:old", base64.RawStdEncoding.EncodeToString(make([]byte, 64))
+	case "otherkey":
+		var s struct {
+			Signatures map[string]map[string]string `json:"signatures"`
+		}
+		if json.Unmarshal(e.PDU.Sign(name, hsKeyID, hsEvilKey).JSON(), &s) != nil {
+			return nil
+		}
+		sig = s.Signatures[name][keyID]
+	}
+	var m map[string]json.RawMessage
+	if sig == "" || json.Unmarshal(e.JSON, &m) != nil {
+		return nil
+	}
+	sigs := map[string]map[string]json.RawMessage{}
+	_ = json.Unmarshal(m["signatures"], &sigs)
+	if sigs[name] == nil {
+		sigs[name] = map[string]json.RawMessage{}
+	}
+	sigs[name][keyID], _ = json.Marshal(sig)
+	m["signatures"], _ = json.Marshal(sigs)
+	raw, _ := json.Marshal(m)
+	cj, err := gmsl.CanonicalJSON(raw)
+	if err != nil {
+		return nil
+	}
+	back, err := impl.NewEventFromUntrustedJSON(cj)
+	if err != nil || back.EventID() != e.ID {
+		return nil
+	}
+	return &Ev{PDU: back, ID: back.EventID(), JSON: back.JSON()}
+}
+
+// hsFix pins parameters of a generated handshake op; with `happy` every other parameter stays on the accepting path.
+type hsFix struct {
+	ver, typ, forge string
+	happy           bool
+}
+
+func genSendJoin(o *Out, r *Rng, i int) { genSendJoinFix(o, r, i, hsFix{}) }
+
+// genSendJoinFixed: every room version x every wrong event type, and every room version x every class of planted local
+// signature, each alone on the otherwise accepting path.
+func genSendJoinFixed(o *Out, r *Rng) {
+	for _, ver := range hsVersions {
+		for _, typ := range hsWrongTypes {
+			genSendJoinFix(o, r, 1000, hsFix{ver: ver, typ: "t:" + typ, happy: true})
+		}
+		for _, f := range hsForgeClasses {
+			genSendJoinFix(o, r, 1000, hsFix{ver: ver, forge: f, happy: true})
+		}
+	}
+}
+
+func genSendJoinFix(o *Out, r *Rng, i int, fix hsFix) {
 	ver := pickDev(r, 92, Pick(r, hsVersions), "99", "")
+	if fix.ver != "" {
+		ver = fix.ver
+	}
 	ever := ver
 	if _, err := gmsl.GetRoomVersion(gmsl.RoomVersion(ver)); err != nil {
 		ever = "10"
@@ -496,6 +642,10 @@ func genSendJoin(o *Out, r *Rng, i int) {
 	if r.Chance(25) {
 		p = 60
 	}
+	if fix.happy {
+		p = 100
+	}
+	rare := func(pc int) bool { return !fix.happy && r.Chance(pc) }
 	sender := pickDev(r, p, "@bob:hs2", "@carol:hs3", "@bob:hs1", "@bob:bad domain", "@"+strings.Repeat("é", 130)+":hs2")
 	skMode := pickDev(r, p, "sender", "other", "empty", "none")
 	var sk *string
@@ -506,6 +656,14 @@ func genSendJoin(o *Out, r *Rng, i int) {
 		sk = sp("@dave:hs2")
 	case "empty":
 		sk = sp("")
+	}
+	// the event type: m.room.member, or (about one op in twelve, and in the fixed prologue) something else that still
+	// has state_key == sender and content.membership == "join"
+	typ := spec.MRoomMember
+	if strings.HasPrefix(fix.typ, "t:") {
+		typ = fix.typ[2:]
+	} else if rare(8) {
+		typ = Pick(r, hsWrongTypes)
 	}
 	content := map[string]interface{}{}
 	switch pickDev(r, p, "join", "leave", "invite", "ban", "knock", "missing", "nonstring", "null") {
@@ -531,36 +689,56 @@ func genSendJoin(o *Out, r *Rng, i int) {
 	case "empty":
 		content["join_authorised_via_users_server"] = ""
 	}
-	switch pickDev(r, 90, "none", "badname", "direct") {
+	switch pickDev(r, max(p, 90), "none", "badname", "direct") {
 	case "badname":
 		content["displayname"] = 5
 	case "direct":
 		content["is_direct"] = "yes"
 	}
 	var contentV interface{} = content
-	if r.Chance(2) {
+	if rare(2) {
 		contentV = Pick(r, []interface{}{nil, []int{1}, "x", 5})
 	}
 	evRoom := pickDev(r, p, "!room:hs1", "!other:hs1")
 	g.RoomID = evRoom
-	ev, cls := g.MkU(spec.MRoomMember, sender, sk, contentV, []string{"$p:hs1"}, []string{}, nil)
-	evArg, id := "-", "$none"
+	ev, cls := g.MkU(typ, sender, sk, contentV, []string{"$p:hs1"}, []string{}, nil)
+	// a planted entry in the slot the local signature goes to
+	forge := fix.forge
+	if forge == "" && rare(6) {
+		forge = Pick(r, hsForgeClasses)
+	}
+	if forge != "" && ev != nil && cls == "o" {
+		if f := hsForge(ever, ev, forge, local); f != nil {
+			ev = f
+			o.Count("sendjoin.planted-local-sig." + forge)
+		} else {
+			o.Count("sendjoin.planted-local-sig.gen-failed")
+		}
+	}
+	evArg, id, typArg := "-", "$none", "-"
 	if ev == nil {
 		cls = "x"
 	} else {
-		evArg, id = ev.Arg(), ev.ID
+		evArg, id, typArg = ev.Arg(), ev.ID, hx([]byte(typ))
 	}
-	if r.Chance(4) {
-		cls, evArg = "x", "-"
+	if rare(4) {
+		cls, evArg, typArg = "x", "-", "-"
 	}
 	reqID := pickDev(r, p, id, "$different:hs2")
-	senderQ := pickDev(r, 95, "ok", "err")
+	senderQ := pickDev(r, max(p, 95), "ok", "err")
 	verify := pickDev(r, p, "good", "bad", "err")
-	cur := pickDev(r, 70, "m:leave", "m:join", "m:ban", "m:", "m:invite", "m:knock", "err")
-	res := o.Do("sendjoin", ver, cls, evArg, hx([]byte("!room:hs1")), hx([]byte(reqID)), origin, local, senderQ, verify, cur)
+	pcur := 70
+	if fix.happy {
+		pcur = 100
+	}
+	cur := pickDev(r, pcur, "m:leave", "m:join", "m:ban", "m:", "m:invite", "m:knock", "err")
+	res := o.Do("sendjoin", ver, cls, evArg, typArg, hx([]byte("!room:hs1")), hx([]byte(reqID)), origin, local, senderQ, verify, cur)
 	o.Count("sendjoin." + strings.SplitN(res, ":sig", 2)[0])
-	if i < 2 {
-		o.Sample("sendjoin " + ver + " sender=" + sender + " sk=" + skMode + " -> " + res)
+	if typ != spec.MRoomMember && cls != "x" {
+		o.Count("sendjoin.type-not-member." + strings.SplitN(res, ":sig", 2)[0])
+	}
+	if i < 2 || (i == 1000 && fix.ver == "10" && (fix.typ == "t:x.custom" || fix.forge == "otherkey")) {
+		o.Sample("sendjoin " + ver + " type=" + typ + " planted=" + forge + " sender=" + sender + " sk=" + skMode + " -> " + res)
 	}
 }
 
@@ -707,8 +885,26 @@ func genMakeLeave(o *Out, r *Rng, i int) {
 	o.Count("makeleave." + res)
 }
 
-func genInvite(o *Out, r *Rng, i int) {
+func genInvite(o *Out, r *Rng, i int) { genInviteFix(o, r, i, hsFix{}) }
+
+// genInviteFixed: every room version x every class of planted local signature, and x every wrong event type that still
+// looks like an invite to `Membership()`, each alone on the otherwise accepting path.
+func genInviteFixed(o *Out, r *Rng) {
+	for _, ver := range hsVersions {
+		for _, f := range hsForgeClasses {
+			genInviteFix(o, r, 1000, hsFix{ver: ver, forge: f, happy: true})
+		}
+		for _, typ := range hsWrongTypes {
+			genInviteFix(o, r, 1000, hsFix{ver: ver, typ: "t:" + typ, happy: true})
+		}
+	}
+}
+
+func genInviteFix(o *Out, r *Rng, i int, fix hsFix) {
 	ver := pickDev(r, 92, Pick(r, hsVersions), "99", "")
+	if fix.ver != "" {
+		ver = fix.ver
+	}
 	ever := ver
 	if _, err := gmsl.GetRoomVersion(gmsl.RoomVersion(ver)); err != nil {
 		ever = "10"
@@ -718,10 +914,13 @@ func genInvite(o *Out, r *Rng, i int) {
 	if r.Chance(25) {
 		p = 60
 	}
+	if fix.happy {
+		p = 100
+	}
 	invited := "@alice:hs1"
 	sender := pickDev(r, p, "@bob:hs2", "@bob:bad domain")
 	membership := pickDev(r, p, "invite", "join", "leave", "ban", "knock")
-	typ := pickDev(r, 92, spec.MRoomMember, spec.MRoomPowerLevels, "m.room.message")
+	typ := pickDev(r, max(p, 92), spec.MRoomMember, spec.MRoomPowerLevels, "m.room.message")
 	var sk *string
 	switch pickDev(r, p, "invited", "other", "none") {
 	case "invited":
@@ -737,21 +936,49 @@ func genInvite(o *Out, r *Rng, i int) {
 	if typ != spec.MRoomMember {
 		content = map[string]interface{}{"users": map[string]interface{}{"@bob:hs2": 100}}
 	}
-	ev, _ := g.MkU(typ, sender, sk, content, []string{"$p:hs2"}, []string{}, nil)
+	// another type that keeps the invite's state key and content (so that `Membership()` still answers "invite")
+	if strings.HasPrefix(fix.typ, "t:") {
+		typ = fix.typ[2:]
+	} else if typ == spec.MRoomMember && !fix.happy && r.Chance(5) {
+		typ = Pick(r, hsWrongTypes)
+	}
+	ev, cls := g.MkU(typ, sender, sk, content, []string{"$p:hs2"}, []string{}, nil)
 	if ev == nil {
 		o.Count("gen-failed")
 		return
 	}
-	senderQ := pickDev(r, 93, "ok", "err")
+	// a planted entry in the slot the local signature goes to (signing name: the invited user's server)
+	forge := fix.forge
+	if forge == "" && !fix.happy && r.Chance(6) {
+		forge = Pick(r, hsForgeClasses)
+	}
+	if forge != "" && cls == "o" {
+		if f := hsForge(ever, ev, forge, "hs1"); f != nil {
+			ev = f
+			o.Count("invite.planted-local-sig." + forge)
+		} else {
+			o.Count("invite.planted-local-sig.gen-failed")
+		}
+	}
+	senderQ := pickDev(r, max(p, 93), "ok", "err")
 	verify := pickDev(r, p, "good", "bad", "err")
-	known := pickDev(r, 60, "1", "0", "err")
-	stripped := pickDev(r, 50, "0", "1", "3")
-	stateq := pickDev(r, 70, "2", "0", "err")
-	cur := pickDev(r, 70, "m:leave", "m:join", "m:invite", "m:", "err")
+	pq := func(q int) int {
+		if fix.happy {
+			return 100
+		}
+		return q
+	}
+	known := pickDev(r, pq(60), "1", "0", "err")
+	stripped := pickDev(r, pq(50), "0", "1", "3")
+	stateq := pickDev(r, pq(70), "2", "0", "err")
+	cur := pickDev(r, pq(70), "m:leave", "m:join", "m:invite", "m:", "err")
 	res := o.Do("invite", ver, ev.Arg(), hx([]byte("!room:hs2")), invited, senderQ, verify, known, stripped, stateq, cur)
 	o.Count("invite." + strings.SplitN(res, ":sig", 2)[0])
-	if i < 2 {
-		o.Sample("invite " + ver + " type=" + typ + " membership=" + membership + " -> " + res)
+	if typ != spec.MRoomMember {
+		o.Count("invite.type-not-member." + strings.SplitN(res, ":sig", 2)[0])
+	}
+	if i < 2 || (i == 1000 && fix.ver == "10" && fix.forge == "otherkey") {
+		o.Sample("invite " + ver + " type=" + typ + " planted=" + forge + " membership=" + membership + " -> " + res)
 	}
 }
 
@@ -1108,8 +1335,9 @@ func execInviteV3(args []string) string {
 		HandleInviteInput: gmsl.HandleInviteInput{
 			RoomID: *roomID, RoomVersion: gmsl.RoomVersion(ver), InvitedUser: *invited, InvitedSenderID: invitedSender,
 			StrippedState: stripped, KeyID: hsKeyID, PrivateKey: hsLocalKey, Verifier: &hsVerifier{mode: "good"},
-			RoomQuerier: &hsRoomQuerier{known: args[7]}, MembershipQuerier: &hsMembership{cur: args[10]},
-			StateQuerier: &hsStateQuerier{mode: args[9], ev: stEv.PDU}, UserIDQuerier: StdQuerier,
+			RoomQuerier:       &hsRoomQuerier{known: args[7]},
+			MembershipQuerier: &hsMembership{cur: args[10], check: true, wantRoom: roomID.String(), wantSender: invitedSender},
+			StateQuerier:      &hsStateQuerier{mode: args[9], ev: stEv.PDU}, UserIDQuerier: StdQuerier,
 		},
 		InviteProtoEvent: proto,
 		GetOrCreateSenderID: func(ctx context.Context, userID spec.UserID, roomID spec.RoomID, roomVersion string) (spec.SenderID, ed25519.PrivateKey, error) {
